@@ -321,6 +321,22 @@ func (c *Client) monitor(ctx context.Context) {
 	defer c.mcancel()
 	defer c.setState(ctx, Closed)
 
+	// Close cancels the monitor and closes the secure channel it finds.
+	// A secure channel which has been created by a reconnect attempt that
+	// was in flight at that time is closed here.
+	defer func() {
+		if ctx.Err() == nil {
+			return
+		}
+		if sc := c.SecureChannel(); sc != nil {
+			sc.Close()
+			c.setSecureChannel(nil)
+		}
+		if conn := c.getConn(); conn != nil {
+			conn.Close()
+		}
+	}()
+
 	action := none
 	for {
 		select {
